@@ -663,6 +663,23 @@ func (c20) Generate(r *sim.Rand, tier string) *sim.Scenario {
 				tag, bn := pickBad(r, a.Shape)
 				steps = append(steps, sim.Step{C: tk, Op: "bad", In: []int{a.ID}, Tag: tag, N: bn, Out: -1})
 				k++
+			case r.Bool(0.04): // a private result is turned into a fresh leaf (or frozen)
+				var own []avail
+				for _, a := range usable() {
+					if a.ID >= 1000 && !rng[a.ID] {
+						own = append(own, a)
+					}
+				}
+				if len(own) == 0 {
+					fails++
+					continue
+				}
+				a := own[len(own)-1-r.Intn(minInt(3, len(own)))]
+				b := r.Bool(0.5)
+				pool.T[a.ID].ResetGradContext(b)
+				trk[a.ID], touch[a.ID] = b, false
+				steps = append(steps, sim.Step{C: tk, Op: "reset", In: []int{a.ID}, B: b, Out: -1})
+				k++
 			case x < 10 || (class == 1 && x < 25): // private leaf
 				shape := base
 				if r.Bool(0.4) {
